@@ -11,7 +11,8 @@
 (*                an absent optional object whose descendants have defaults   *)
 (*                is materialised                                             *)
 (*  Cases         (schema variant, argument value) and (output schema / Go    *)
-(*                output type, handler output)                                *)
+(*                output type, handler output): option lists and case        *)
+(*                constructors here, the case sets in TypedTool.tla           *)
 (*  ExpectedIn/ExpectedOut   the code-shaped procedure of mcp/server.go       *)
 (*                (toolForErr) and mcp/tool.go (applySchema), step by step    *)
 (*  HoldsIn/HoldsOut         the property, stated declaratively               *)
@@ -193,14 +194,7 @@ GoClassAt(ty, ix) ==
 NoVariant == [nDef |-> FALSE, nReq |-> FALSE, addl |-> FALSE, nest |-> "none"]
 InCase(kind, vr, ty, cache, cls, args) ==
   [kind |-> kind, vr |-> vr, ty |-> ty, cache |-> cache, cls |-> cls, args |-> args]
-InCases ==
-  {InCase("in", vr, "map", FALSE, ClassAt(ix), ArgsAt(ix)) : vr \in Variants, ix \in ArgIx}
-  \cup {InCase("in", vr, "map", FALSE, <<NonObjLab[i]>>, NonObjArgs[i]) : vr \in Variants, i \in DOMAIN NonObjArgs}
-RInCases ==
-  UNION {{InCase("rin", NoVariant, ty, ch, GoClassAt(ty, ix), GoArgsAt(ty, ix)) : ix \in GoArgIx(ty), ch \in BOOLEAN}
-         : ty \in GoInTypes}
-  \cup {InCase("rin", NoVariant, ty, ch, <<NonObjLab[i]>>, NonObjArgs[i]) : ty \in GoInTypes, ch \in BOOLEAN, i \in DOMAIN NonObjArgs}
-
+\* the case sets InCases / RInCases / OutCases are built in TypedTool.tla (the monitor does not need them)
 CaseInSchema(c) == IF c.kind = "in" THEN InSchemaF[c.vr] ELSE GoInSchema(c.ty)
 (* what the handler is entitled to see *)
 View(c, x) == IF c.kind = "rin" THEN StructView(CaseInSchema(c), x) ELSE x
@@ -305,25 +299,6 @@ AnyVals == ObjVals \cup IntArrVals \cup {JArr(<<JStr("x")>>)} \cup IntVals \cup 
 (* any for null); content = the handler supplies Content of its own.          *)
 OutCase(sid, okind, cache, out, nilform, content) ==
   [kind |-> "out", sid |-> sid, okind |-> okind, cache |-> cache, out |-> out, nilform |-> nilform, content |-> content]
-OutCases ==
-  \* explicit schema, Out = any
-  {OutCase(sid, "any", FALSE, x, x[1] = "null", ct) : sid \in OutSchemaIds, x \in AnyVals, ct \in BOOLEAN}
-  \* explicit schema, typed Out
-  \cup {OutCase(sid, "map", FALSE, x, FALSE, ct) : sid \in ObjIds, x \in ObjVals, ct \in BOOLEAN}
-  \cup {OutCase(sid, "map", FALSE, EmptyObj, TRUE, ct) : sid \in ObjIds, ct \in BOOLEAN}
-  \cup {OutCase("arr", "ints", FALSE, x, FALSE, ct) : x \in IntArrVals, ct \in BOOLEAN}
-  \cup {OutCase("arr", "ints", FALSE, JNull, TRUE, ct) : ct \in BOOLEAN}
-  \cup {OutCase("int", "int", FALSE, x, FALSE, ct) : x \in IntVals, ct \in BOOLEAN}
-  \cup {OutCase("enum", "str", FALSE, x, FALSE, ct) : x \in StrVals, ct \in BOOLEAN}
-  \* reflected schema
-  \cup {OutCase("reflect", k, ch, x, FALSE, ct) : k \in {"struct", "ptr"}, x \in OutSVals, ch \in BOOLEAN, ct \in BOOLEAN}
-  \cup {OutCase("reflect", "ptr", ch, ZeroOutS, TRUE, ct) : ch \in BOOLEAN, ct \in BOOLEAN}
-  \cup {OutCase("reflect", "strs", ch, x, x[1] = "null", ct) :
-          x \in {JNull, JArr(<<>>), JArr(<<JStr("x"), JStr("y")>>)}, ch \in BOOLEAN, ct \in BOOLEAN}
-  \cup {OutCase("reflect", "rint", ch, x, FALSE, ct) : x \in {JInt(0), JInt(7)}, ch \in BOOLEAN, ct \in BOOLEAN}
-  \cup {OutCase("reflect", "rstr", ch, x, FALSE, ct) : x \in {JStr(""), JStr("a")}, ch \in BOOLEAN, ct \in BOOLEAN}
-  \cup {OutCase("reflect", "rbool", ch, JBool(b), FALSE, ct) : b \in BOOLEAN, ch \in BOOLEAN, ct \in BOOLEAN}
-
 CaseOutSchema(c) == IF c.sid = "reflect" THEN GoOutSchema(c.okind) ELSE OutSchema(c.sid)
 
 \* Outcome of an output case: [ran, isError, proto, hasSc, sc, texts]
